@@ -116,7 +116,7 @@ for _p, (_t, _txt, _tech) in _CONT.items():
 import c14 as _c14
 PROPS["C14"] = {"theorems": [("GdslModel.Props.C14", "G.Macro." + t) for t in ["build_spec", "panic_first_missing"]], "oracles": [], "rule": "", "custom": _c14.custom,
     "technique": "Lean 4 proof of the arm body's denotation + generated macro programs compiled against the tree (correspondence) + independent denotation oracle",
-    "level_text": "Machine-checked proof (Lean 4) that the body of a *graph! arm (collect edge tuples, insert nodes, check source then target, connect), as a function of the listed nodes and edges, builds exactly the listed nodes (first listing of a key wins) and per node exactly its listed edges in listed order, mirrored, and otherwise panics naming the first unlisted key in (edge order, source before target). The macro_rules! expansion itself is exercised, not modelled: a seeded generator writes invocations of all 4 macros x 4 forms (plus the empty form and the _node!/_connect! helpers) into a crate compiled against the working tree, each result bound to the flavour's own Graph type, and their output is compared with the model and with an independent denotation.", "level_note": CORR_NOTE, "technique": "", "design_ref": "DESIGN.md section 7, C14"}
+    "level_text": "Machine-checked proof (Lean 4) that the body of a *graph! arm (collect edge tuples, insert nodes, check source then target, connect), as a function of the listed nodes and edges, builds exactly the listed nodes (first listing of a key wins) and per node exactly its listed edges in listed order, mirrored, and otherwise panics naming the first unlisted key in (edge order, source before target). The macro_rules! expansion itself is exercised, not modelled: a seeded generator writes invocations of all 4 macros x 4 forms (plus the empty form and the _node!/_connect! helpers) into a crate compiled against the working tree, each result bound to the flavour's own Graph type, and their output is compared with the model and with an independent denotation.", "level_note": CORR_NOTE, "design_ref": "DESIGN.md section 7, C14"}
 
 import c16 as _c16
 PROPS["C16"] = {"theorems": [("GdslModel.Props.C16", "G.Traits." + t) for t in ["exact_spec", "never_spec", "sync_digraph_exact", "sync_ungraph_exact", "plain_never", "sync_weak_exact", "weak_bounds_not_exact"]],
